@@ -225,7 +225,7 @@ fn char_boundary(s: &str, i: usize) -> usize {
 }
 
 pub fn corrupt_line(t: &mut Tape, line: &str, alignment: bool) -> (String, String) {
-    let op = t.below(12);
+    let op = t.below(13);
     let mut s = line.to_string();
     let name = match op {
         0 => {
@@ -300,6 +300,16 @@ pub fn corrupt_line(t: &mut Tape, line: &str, alignment: bool) -> (String, Strin
             let n = t.below(40);
             s = (0..n).map(|_| *t.pick(&['a', '^', '-', '+', '=', '/', 'A', ':', '1', 'x', '_', ' ', '\u{3042}'])).collect();
             "random-text"
+        }
+        11 => {
+            // a line break INSIDE one element (a line read with its terminator, two lines glued)
+            s = match t.below(4) {
+                0 => format!("{}\n", s),
+                1 => format!("{}\r\n", s),
+                2 => format!("{}\n{}", s, s),
+                _ => "\n".to_string(),
+            };
+            "line-break-inside-element"
         }
         _ => {
             let p = char_boundary(&s, t.below(s.len() + 1));
@@ -392,6 +402,33 @@ impl Prop for Corruptions {
             Ok(r) => r,
             Err(p) => fail!(p.signature(), "Engine::generator panicked on corrupted label text {:?}: {}", c.lines, p.msg),
         };
+        // every input form gives the same verdict on the same text
+        {
+            let slice_ok = r.is_ok();
+            let vec_ok = catch(|| engine.generator(c.lines.clone()).is_ok());
+            match vec_ok {
+                Ok(v) => ensure!(v == slice_ok, "form-verdict", "Vec<String> is {} where the slice form is {} for {:?}", if v { "accepted" } else { "rejected" }, if slice_ok { "accepted" } else { "rejected" }, c.lines),
+                Err(p) => fail!(p.signature(), "Engine::generator(Vec<String>) panicked on corrupted label text {:?}: {}", c.lines, p.msg),
+            }
+            fn arr<const N: usize>(e: &Engine, l: &[String]) -> bool {
+                let a: [&str; N] = std::array::from_fn(|i| l[i].as_str());
+                e.generator(&a).is_ok()
+            }
+            let via_array = catch(|| match c.lines.len() {
+                1 => Some(arr::<1>(&engine, &c.lines)),
+                2 => Some(arr::<2>(&engine, &c.lines)),
+                3 => Some(arr::<3>(&engine, &c.lines)),
+                4 => Some(arr::<4>(&engine, &c.lines)),
+                5 => Some(arr::<5>(&engine, &c.lines)),
+                6 => Some(arr::<6>(&engine, &c.lines)),
+                _ => None,
+            });
+            match via_array {
+                Ok(Some(v)) => ensure!(v == slice_ok, "form-verdict", "the fixed-size array form is {} where the slice form is {} for {:?}", if v { "accepted" } else { "rejected" }, if slice_ok { "accepted" } else { "rejected" }, c.lines),
+                Ok(None) => {}
+                Err(p) => fail!(p.signature(), "Engine::generator(&[&str; N]) panicked on corrupted label text {:?}: {}", c.lines, p.msg),
+            }
+        }
         match (&r, &direct) {
             (Ok(frames), Ok(_)) => {
                 if *frames * engine.condition.get_fperiod() <= 200_000 {
